@@ -29,6 +29,45 @@ pub struct Reject {
     pub expected_lo: f64,
     pub expected_hi: f64,
     pub margin: f64,
+    /// where: the threshold (dkw) or the lower edge of the cell; NaN for the G statistic
+    pub at: f64,
+    /// size of the deviation relative to the reference probability (dkw: relative to
+    /// min(F, 1-F); cell: relative to the cell's probability; g: root-mean-square relative
+    /// deviation over the cells, sqrt((G - df)/N))
+    pub rel: f64,
+}
+
+impl Reject {
+    /// signature tags for known-finding matching (cumulative buckets)
+    pub fn tags(&self) -> Vec<String> {
+        let mut t = Vec::new();
+        for (thr, name) in [(0.003, "rel<=0.3%"), (0.01, "rel<=1%"), (0.03, "rel<=3%"), (0.1, "rel<=10%"), (0.3, "rel<=30%")] {
+            if self.rel <= thr {
+                t.push(name.to_string());
+            }
+        }
+        if self.at >= 8388608.0 {
+            t.push("x>=2^23".to_string());
+        }
+        if self.at >= 35184372088832.0 {
+            t.push("x>=2^45".to_string());
+        }
+        t
+    }
+}
+
+pub trait EdgeVal: Copy + PartialOrd + std::fmt::Debug {
+    fn to_f64(self) -> f64;
+}
+impl EdgeVal for f64 {
+    fn to_f64(self) -> f64 {
+        self
+    }
+}
+impl EdgeVal for u64 {
+    fn to_f64(self) -> f64 {
+        self as f64
+    }
 }
 
 #[derive(Clone, Debug, Default, Serialize)]
@@ -44,7 +83,7 @@ pub struct JudgeInfo {
     pub g_ratio: f64,
 }
 
-impl<T: Copy + PartialOrd + std::fmt::Debug> EdgeTable<T> {
+impl<T: EdgeVal> EdgeTable<T> {
     /// counts[j] = number of samples in cell j, cells: (-inf, e_0], (e_0, e_1], ..., (e_last, inf)
     pub fn cell_of(&self, x: T) -> usize {
         // number of edges strictly below x
@@ -89,7 +128,8 @@ impl<T: Copy + PartialOrd + std::fmt::Debug> EdgeTable<T> {
                 info.worst_dkw_ratio = ratio;
             }
             if dev > width && dkw.as_ref().map(|r| r.margin < ratio).unwrap_or(true) {
-                dkw = Some(Reject { test: "dkw".into(), region: format!("P(X <= {:?})", ed.e), observed: emp, expected_lo: lo, expected_hi: hi, margin: ratio });
+                let base = (0.5 * (lo + hi)).min(1.0 - 0.5 * (lo + hi)).max(1e-300);
+                dkw = Some(Reject { test: "dkw".into(), region: format!("P(X <= {:?})", ed.e), observed: emp, expected_lo: lo, expected_hi: hi, margin: ratio, at: ed.e.to_f64(), rel: dev / base });
             }
         }
         // ---- per-cell Chernoff ----------------------------------------------------
@@ -105,7 +145,10 @@ impl<T: Copy + PartialOrd + std::fmt::Debug> EdgeTable<T> {
                 info.worst_cell_margin = mg;
             }
             if mg > 1.0 && cell.as_ref().map(|r| r.margin < mg).unwrap_or(true) {
-                cell = Some(Reject { test: "cell".into(), region: self.cell_name(j), observed: counts[j] as f64 / nf, expected_lo: p_lo, expected_hi: p_hi, margin: mg });
+                let f = counts[j] as f64 / nf;
+                let dev = if f > p_hi { f - p_hi } else { (p_lo - f).max(0.0) };
+                let at = if j == 0 { f64::NEG_INFINITY } else { self.edges[j - 1].e.to_f64() };
+                cell = Some(Reject { test: "cell".into(), region: self.cell_name(j), observed: f, expected_lo: p_lo, expected_hi: p_hi, margin: mg, at, rel: dev / p_hi.max(1e-300) });
             }
         }
         // ---- G statistic over the well-resolved, well-populated cells ----------------
@@ -144,7 +187,7 @@ impl<T: Copy + PartialOrd + std::fmt::Debug> EdgeTable<T> {
             let thr = d * (1.0 - 2.0 / (9.0 * d) + z * (2.0 / (9.0 * d)).sqrt()).powi(3);
             info.g_ratio = g / thr;
             if g > thr {
-                gt = Some(Reject { test: "g".into(), region: format!("{df} resolved cells"), observed: g, expected_lo: d, expected_hi: thr, margin: g / thr });
+                gt = Some(Reject { test: "g".into(), region: format!("{df} resolved cells"), observed: g, expected_lo: d, expected_hi: thr, margin: g / thr, at: f64::NAN, rel: ((g - d).max(0.0) / nf).sqrt() });
             }
         }
         (dkw.into_iter().chain(cell).chain(gt).collect(), info)
